@@ -136,8 +136,21 @@ pub unsafe extern "C" fn mprotect(addr: *mut libc::c_void, len: libc::size_t, pr
 }
 
 fn in_generated_code(rip: usize) -> bool {
+    generated_range_end(rip).is_some()
+}
+
+/// End of the recorded executable range that contains `rip` (ranges are never removed, so only the
+/// range an instruction is executing from is known to be mapped).
+fn generated_range_end(rip: usize) -> Option<usize> {
     let n = EXEC_RANGES_N.load(Ordering::Relaxed).min(NRANGES);
-    (0..n).any(|i| rip >= EXEC_RANGES[i].0.load(Ordering::Relaxed) && rip < EXEC_RANGES[i].1.load(Ordering::Relaxed))
+    (0..n).find_map(|i| {
+        let (a, b) = (EXEC_RANGES[i].0.load(Ordering::Relaxed), EXEC_RANGES[i].1.load(Ordering::Relaxed));
+        if rip >= a && rip < b {
+            Some(b)
+        } else {
+            None
+        }
+    })
 }
 
 /// An execution that touches the shared page more often than this has run away (the largest
@@ -558,12 +571,13 @@ extern "C" fn on_segv(sig: libc::c_int, info: *mut libc::siginfo_t, ctx: *mut li
 unsafe fn look_at_next_instruction(s: &mut Sim, me: usize, uc: *mut libc::ucontext_t) {
     s.stepped[me] += 1;
     let rip = (*uc).uc_mcontext.gregs[libc::REG_RIP as usize] as usize;
-    if in_generated_code(rip) {
+    if let Some(end) = generated_range_end(rip) {
         s.stepped_generated[me] += 1;
         // (the JIT's pages are writable + executable without PROT_READ: the kernel refuses
-        // process_vm_readv there, the CPU does not; reading stays inside the executable range)
+        // process_vm_readv there, the CPU does not; reading stays inside the very range this
+        // instruction executes from, which was made executable as a whole and is mapped)
         let mut code = [0u8; 15];
-        let room = if in_generated_code(rip + 14) { 15 } else { (PAGE - (rip & (PAGE - 1))).min(15) };
+        let room = (end - rip).min(15);
         std::ptr::copy_nonoverlapping(rip as *const u8, code.as_mut_ptr(), room);
         let regs = [0u64; 16];
         let d = decode(&code[..room], &regs);
